@@ -206,6 +206,16 @@ func c19run(c *fw.Ctx, idx int) {
 			}
 		}
 		var l jet.Loader = jet.NewOSFileSystemLoader(root)
+		if kind == "os" && idx%32 == 10 && swapLink == "" {
+			// the root may be spelt relative to the current directory, the current directory itself included
+			if wd, err := os.Getwd(); err == nil && os.Chdir(root) == nil {
+				defer os.Chdir(wd)
+				spell := []string{".", "./", "./.", "sub/.."}[(idx/32)%4] // not "": filepath.Join("", "/x") is "/x", the file-system root
+				l = jet.NewOSFileSystemLoader(spell)
+				hist = append(hist, c19op{Op: "Chdir(root)+NewOSFileSystemLoader(" + fmt.Sprintf("%q", spell) + ")"})
+				c.Count("os_roots_spelt_as_current_directory", 1)
+			}
+		}
 		if kind == "httpfs" {
 			l, _ = httpfs.NewLoader(http.Dir(root))
 			if idx%32 == 11 && swapLink == "" {
